@@ -25,8 +25,11 @@ let parts_of data cuts =
           let (a, b) = take l d in (match go b r with Some t -> Some (a :: t) | None -> None) in
     go data ls
   end
+(* CRC32C_Init runs init() first; if its assert fails every call sequence aborts there *)
+let init_ok = (match crc_init_tables with Ok _ -> true | _ -> false)
 let () = iter_lines (fun line ->
   match split_ws line with
+  | ("crc" | "upd" | "sse42") :: _ when not init_ok -> print_endline "assert"
   | ["tables"] -> print_endline (show_res hex_tables crc_init_tables)
   | ["spec"; "tables"] -> print_endline ("ok " ^ hex_tables (List.map (fun k -> crc_table_ref (n_of_int k)) [0; 1; 2; 3]))
   | ["crc"; off; d; cuts] ->
